@@ -4,7 +4,7 @@ c11_tie = importlib.util.module_from_spec(_spec); _spec.loader.exec_module(c11_t
 T = "GeomV.C11."
 CFG = {
     "id": "C11",
-    "lean_modules": ["GeomV.C11.Proofs", "GeomV.C11.ProofsArith", "GeomV.C11.ProofsFill", "GeomV.C11.ProofsHeap", "GeomV.C11.ProofsParent", "GeomV.C11.ProofsParentIns", "GeomV.C11.ProofsParentDel", "GeomV.C11.ProofsHeapDel", "GeomV.C11.ProofsHeapIns", "GeomV.C11.ProofsHeapBase", "GeomV.C11.ProofsHeapSplit", "GeomV.C11.ProofsHeapRootSplit"] + c11_tie.C11_TIES,
+    "lean_modules": ["GeomV.C11.Proofs", "GeomV.C11.ProofsArith", "GeomV.C11.ProofsFill", "GeomV.C11.ProofsHeap", "GeomV.C11.ProofsParent", "GeomV.C11.ProofsParentIns", "GeomV.C11.ProofsParentDel", "GeomV.C11.ProofsHeapDel", "GeomV.C11.ProofsHeapIns", "GeomV.C11.ProofsHeapBase", "GeomV.C11.ProofsHeapSplit", "GeomV.C11.ProofsHeapRootSplit", "GeomV.C11.ProofsHeapAdjust", "GeomV.C11.ProofsHeapCondense"] + c11_tie.C11_TIES,
     "exe": "geomv_c11",
     "go_cmd": "c11",
     "stages": ["go:gen", "go:impl", "lean:judge"],
@@ -41,6 +41,11 @@ CFG = {
         "Heap.C11_heap_split_total",
         # … and with it the first root split: Insert into a full leaf root (append, split, adjustTree at the root, new root, height++)
         "Heap.C11_heap_insert_rootsplit_refines_partial",
+        # … adjustTree along the STORED parent links for trees of any height: Insert that overflows no node, under the path hypothesis PathOK;
+        # the frame lemma (memories agreeing on the nodes erase visits denote the same tree)
+        "Heap.erase_agree", "Heap.adjust_climb", "Heap.C11_heap_insert_nosplit_refines_partial",
+        # … condenseTree's upward loop along the stored parent links (no underflow on the path): Delete on trees of any height, under the path hypotheses
+        "Heap.condense_climb", "Heap.delIn_rebuild", "Heap.C11_heap_delete_nounderflow_refines_partial",
         # T1: definitions regenerated from index/rtree/{geom,rtree}.go of the tree under test = the model's
         "C11_tie_size", "C11_tie_margin", "C11_tie_containsPoint", "C11_tie_containsRect", "C11_tie_intersect",
         "C11_tie_enlarge", "C11_tie_initBoundingBox", "C11_tie_boundingBox", "C11_tie_computeBoundingBox",
@@ -57,8 +62,11 @@ CFG = {
         "run compares it with harness/cmd/c11/skeleton.expected, the text the hand-written model was transcribed from",
         "pointer-level model lean/GeomV/C11/Heap.lean (hand-written statement by statement from the skeleton text; arena of nodes with stored parent "
         "fields) is run by the judge next to the functional model on every exact history of <= 400 operations with coordinates below 2^70: no fault, "
-        "erase(arena) = functional tree, same Delete result/Size/Depth, parent audit on the arena; ProofsHeap.lean proves that its searchIntersect, "
-        "findLeaf and split refine the functional model",
+        "erase(arena) = functional tree, same Delete result/Size/Depth, parent audit on the arena; ProofsHeap*.lean prove that its searchIntersect, "
+        "findLeaf, split (both directions), chooseNode, the first phase of Delete, the root-collapse loop and the whole Insert/Delete on leaf-root trees "
+        "(incl. the first root split) refine the functional model, and Insert without split / Delete without underflow on trees of any height under explicit path "
+        "hypotheses (PathOK/OnPath/DelPath/NoUnder, not derived from ParentOK); adjustTree with a pending split sibling, condenseTree's underflow branch and the "
+        "re-insertion loop are tied by the run only",
         "Lean 4.33.0 kernel; axioms of every theorem printed by #print axioms must be within {propext, Classical.choice, Quot.sound}",
         "model lean/GeomV/C11/Model.lean (functional tree with the stored fields of the Go structs; parent links = recursion path; "
         "findLeaf + entry removal + condenseTree's upward loop fused into one recursion `delIn`) is tied to /repo/index/rtree/rtree.go "
